@@ -4,7 +4,7 @@ import RbpfModel.Generated.StackEntries
 namespace Rbpf
 open Rbpf.Generated.Stack
 
-theorem StackSrc_translated : stackEntriesSrcOk = true ∧ usageValueSrcOk = true := by decide
+theorem StackSrc_translated : stackEntriesSrcOk = true ∧ usageValueSrcOk = true ∧ stackFrameShape = true := by decide
 
 private theorem filterMap_congr' {α β : Type} (f g : α → Option β) (l : List α) (h : ∀ x ∈ l, f x = g x) : l.filterMap f = l.filterMap g := by
   induction l with
